@@ -54,4 +54,76 @@ def dividerValues : List Nat := [0, 1, 2, 3]
 /-- `ProtectedFlags` -/
 def protectedFlags : List (String × Nat) := [("TRANSPARENCY", 1), ("COMPOSITE", 2), ("POSITION", 4), ("NESTING", 8), ("COMPLETE", 2147483648)]
 
+/-- attrs fields of psd/layer_and_mask.py: where the default value comes from -/
+def recordDefaults : List (String × String) := [
+  ("ChannelData.compression", "immutable"),
+  ("ChannelData.data", "immutable"),
+  ("ChannelDataList._items", "factory"),
+  ("ChannelImageData._items", "factory"),
+  ("ChannelInfo.id", "immutable"),
+  ("ChannelInfo.length", "immutable"),
+  ("GlobalLayerMaskInfo.overlay_color", "immutable"),
+  ("GlobalLayerMaskInfo.opacity", "immutable"),
+  ("GlobalLayerMaskInfo.kind", "immutable"),
+  ("LayerAndMaskInformation.layer_info", "immutable"),
+  ("LayerAndMaskInformation.global_layer_mask_info", "immutable"),
+  ("LayerAndMaskInformation.tagged_blocks", "immutable"),
+  ("LayerBlendingRanges.composite_ranges", "factory"),
+  ("LayerBlendingRanges.channel_ranges", "factory"),
+  ("LayerFlags.transparency_protected", "immutable"),
+  ("LayerFlags.visible", "immutable"),
+  ("LayerFlags.obsolete", "immutable"),
+  ("LayerFlags.photoshop_v5_later", "immutable"),
+  ("LayerFlags.pixel_data_irrelevant", "immutable"),
+  ("LayerFlags.undocumented_1", "immutable"),
+  ("LayerFlags.undocumented_2", "immutable"),
+  ("LayerFlags.undocumented_3", "immutable"),
+  ("LayerInfo.layer_count", "immutable"),
+  ("LayerInfo.layer_records", "immutable"),
+  ("LayerInfo.channel_image_data", "immutable"),
+  ("LayerInfoBlock.layer_count", "immutable"),
+  ("LayerInfoBlock.layer_records", "immutable"),
+  ("LayerInfoBlock.channel_image_data", "immutable"),
+  ("LayerRecord.top", "immutable"),
+  ("LayerRecord.left", "immutable"),
+  ("LayerRecord.bottom", "immutable"),
+  ("LayerRecord.right", "immutable"),
+  ("LayerRecord.channel_info", "factory"),
+  ("LayerRecord.signature", "immutable"),
+  ("LayerRecord.blend_mode", "immutable"),
+  ("LayerRecord.opacity", "immutable"),
+  ("LayerRecord.clipping", "immutable"),
+  ("LayerRecord.flags", "factory"),
+  ("LayerRecord.mask_data", "immutable"),
+  ("LayerRecord.blending_ranges", "factory"),
+  ("LayerRecord.name", "immutable"),
+  ("LayerRecord.tagged_blocks", "factory"),
+  ("LayerRecords._items", "factory"),
+  ("MaskData.top", "immutable"),
+  ("MaskData.left", "immutable"),
+  ("MaskData.bottom", "immutable"),
+  ("MaskData.right", "immutable"),
+  ("MaskData.background_color", "immutable"),
+  ("MaskData.flags", "factory"),
+  ("MaskData.parameters", "immutable"),
+  ("MaskData.real_flags", "immutable"),
+  ("MaskData.real_background_color", "immutable"),
+  ("MaskData.real_top", "immutable"),
+  ("MaskData.real_left", "immutable"),
+  ("MaskData.real_bottom", "immutable"),
+  ("MaskData.real_right", "immutable"),
+  ("MaskFlags.pos_relative_to_layer", "immutable"),
+  ("MaskFlags.mask_disabled", "immutable"),
+  ("MaskFlags.invert_mask", "immutable"),
+  ("MaskFlags.user_mask_from_render", "immutable"),
+  ("MaskFlags.parameters_applied", "immutable"),
+  ("MaskFlags.undocumented_1", "immutable"),
+  ("MaskFlags.undocumented_2", "immutable"),
+  ("MaskFlags.undocumented_3", "immutable"),
+  ("MaskParameters.user_mask_density", "immutable"),
+  ("MaskParameters.user_mask_feather", "immutable"),
+  ("MaskParameters.vector_mask_density", "immutable"),
+  ("MaskParameters.vector_mask_feather", "immutable")
+]
+
 end PsdVerif.Generated.Attr
